@@ -38,6 +38,9 @@ def gen_dir(rng, depth, max_depth, counter, force_index=False):
         d["assets"].append("assets")
     if rng.random() < 0.2:
         d["assets"].append("figs")
+    if d["assets"] and d["index"] is not None and depth > 0 and rng.random() < 0.3:
+        # documented: an empty copy_subdir in a local index.md overrides the project-wide list with nothing
+        d["index"]["copy_subdir_empty"] = True
     # ordered_subpage on the index: valid, partial; (entries naming missing files are a separate option)
     if d["index"] is not None:
         entries = [p + ".md" for p in d["pages"]] + list(d["dirs"])
@@ -128,6 +131,8 @@ def page_text(rel, page):
             L.append("    %s" % x)
     if page.get("copy_subdir"):
         L.append("copy_subdir: %s" % page["copy_subdir"][0])
+    if page.get("copy_subdir_empty") and page["title"] is not None:
+        L.append("copy_subdir:")
     if not L:
         L.append("")  # no metadata at all: body starts after a blank line
     L.append("")
